@@ -11,7 +11,7 @@ RULE = (
     "seeded inputs for amap, afilter (also with None), afilterfalse, asorted, amax, amin, asift: sequences of length "
     "0-9 of distinguishable, mutually unorderable element objects (plus ints, bools/floats that compare equal, objects that are == but not identical, None), "
     "many duplicates and equal keys; passed as list, tuple, one-shot iterator or generator; key/predicate is an "
-    "@asynq function that blocks on a harness batch item or not, may return unorderable keys, give different verdicts to equal-looking elements (type- or identity-sensitive), or raise for one element; "
+    "@asynq function that blocks on a harness batch item or not (in 30% of the inputs after first calling another, non-blocking async function synchronously), may return unorderable keys, give different verdicts to equal-looking elements (type- or identity-sensitive), or raise for one element; "
     "reverse on/off; varargs vs single-iterable call forms; wrong call forms. Oracle: the builtin (map, filter, "
     "itertools.filterfalse, sorted, max, min, a two-way partition) applied to the same data with the synchronous twin - "
     "same result with element IDENTITY compared, or the same exception type; with a blocking key exactly one flush per "
@@ -292,8 +292,18 @@ def run_unit(unit, progress):
         rt = harness.HarnessRT({"nodes": [], "kinds": 1})
         ctr = itertools.count()
 
+        presync = rnd.random() < 0.3
+
+        @A()
+        def normalise(x):
+            return x
+
         @A()
         def key(x):
+            if presync:
+                # an ordinary synchronous call of another (non-blocking) async function before the request
+                x = normalise(x)
+                c["keys_making_a_sync_call_first"] = c.get("keys_making_a_sync_call_first", 0) + 1
             if blocking:
                 yield harness.HItem(rt, 0, "k%d" % next(ctr), ("c14", next(ctr)))
             return twin(x)
